@@ -603,6 +603,24 @@ func (fx *FX) specCall(x *SX, env *SEnv, cur, old *State) Val {
 			return Val{T: App("seqat!"+q.Name, v.T, ev(1).T), S: Sort(q.Elem)}
 		}
 		return Val{T: App("seqext!"+q.Name, v.T, ev(1).T), S: SBool}
+	case "applybool":
+		// applybool(fn, x): the (deterministic) boolean result of calling a function-typed value, the same term the
+		// executor uses for calls through function-typed fields without callspec
+		fnv := ev(0)
+		var asorts []Sort
+		asorts = append(asorts, SFn)
+		ats := []string{fnv.T}
+		for i := 1; i < len(args); i++ {
+			v := ev(i)
+			asorts = append(asorts, v.S)
+			ats = append(ats, v.T)
+		}
+		var sn []string
+		for _, as := range asorts {
+			sn = append(sn, strings.NewReplacer("(", "_", ")", "_", " ", "_").Replace(string(as)))
+		}
+		f := fx.ctx.DeclareFun(fmt.Sprintf("apply!%s!%d!%s", strings.Join(sn, "."), 0, "Bool"), asorts, SBool)
+		return Val{T: App(f, ats...), S: SBool}
 	case "keysof", "valsof":
 		// content of a Go map as SMT arrays (presence row / value row)
 		m := ev(0)
@@ -723,8 +741,10 @@ func (fx *FX) specCall(x *SX, env *SEnv, cur, old *State) Val {
 			}
 			if v.S == SRef && srt == SIface && v.GT != nil {
 				// implicit conversion of a pointer to the interface it is passed as (as Go does at a call)
-				if _, isPtr := v.GT.Underlying().(*types.Pointer); isPtr {
-					v = Val{T: fmt.Sprintf("(mk-iface %s %s)", fx.ctx.Tag(typeName(v.GT)), v.T), S: SIface}
+				if pt, isPtr := v.GT.Underlying().(*types.Pointer); isPtr {
+					if _, isStruct := pt.Elem().Underlying().(*types.Struct); isStruct {
+						v = Val{T: fmt.Sprintf("(mk-iface %s %s)", fx.ctx.Tag(typeName(v.GT)), v.T), S: SIface}
+					}
 				}
 			}
 			if v.S != srt {
@@ -953,6 +973,21 @@ func (a *act) localVar(name string, header *ssa.BasicBlock, st *State) (Val, boo
 			}
 		}
 	}
+	// a variable that lives in a heap cell (captured by a closure, or address taken): its current content
+	for _, b := range a.fn.Blocks {
+		for _, in := range b.Instrs {
+			if al, ok := in.(*ssa.Alloc); ok && al.Comment == name {
+				if pv, computed := a.vals[al]; computed {
+					pv.GT = al.Type()
+					loc := a.cellLoc(pv)
+					elem := derefType(al.Type())
+					if _, isStruct := elem.Underlying().(*types.Struct); !isStruct {
+						return Val{T: a.load(loc, st), S: a.sortOf(elem), GT: elem, Loc: loc}, true
+					}
+				}
+			}
+		}
+	}
 	// Reaching definition at the header: among the SSA values bound to the variable (phis named after it and values
 	// recorded by DebugRefs), the one whose definition dominates the header and is dominated by all the others.
 	var best ssa.Value
@@ -1094,7 +1129,7 @@ func (a *act) localVar(name string, header *ssa.BasicBlock, st *State) (Val, boo
 	if bestAddr {
 		loc := a.cellLoc(v)
 		elem := derefType(best.Type())
-		return Val{T: a.load(loc, st), S: a.sortOf(elem), GT: elem}, true
+		return Val{T: a.load(loc, st), S: a.sortOf(elem), GT: elem, Loc: loc}, true
 	}
 	return v, true
 }
